@@ -15,7 +15,7 @@ import (
 func init() {
 	register(&propDef{
 		ID:          "C06",
-		Explanation: "Totality and promptness of the parser over all byte strings are runtime facts and are R4 (termination of the top-level loop) every parser that has read one of the template keywords (templ / css / script) turns each later failed sub-parse into an error — it never declines with ok=false and a nil error, because the Go-code reader un-reads keyword lines containing an opening parenthesis and asks these parsers again; R5 every write into a strings.Builder whose String() becomes an Expression's text is text consumed from the input (result of Parse/Take), never a constant. R6 every `until` lookahead handed to the node-list parser (which rewinds after a match) is flat: it does not reach the node-list parser again, so no branch is parsed twice per nesting level. R7 the text handed to the whole-file entry points (ParseString, parse.NewInput) in parser/v2, the LSP proxy and generatecmd is the text that was read: no strings/bytes/regexp/unicode call that produces text lies on its way (a stripped BOM or converted line ending shifts every recorded position against the file); the un-read test of R4 may be a regular expression, whose required prefixes are then enumerated from the pattern. Decides the position-provenance clauses of the property, for all sites of package parser/v2 and goexpression: R1 every Expression/Range built by the parser goes through NewExpression/NewRange with positions that are parse.Position values obtained from the input being parsed (Position()/PositionAt(), or locals/parameters of that type); no Position, Range or Expression composite literal with position fields exists outside the three constructors, and the constructors copy index, line and column field by field; direct writes to Index/Line/Col exist only as a paired adjustment of Index and Col of the same position by the same constant; R2 every NameRange is NewRange(PositionAt(Index() − len(X.Name)), Position()) where X.Name is the field assigned by the name parser in the statement just before, for the same X; R3 (clamps) the bounds that come from go/parser positions are clamped before they are used to slice the source: in the extractor wrapper `end > len(content) → end = len(content)` and `start > end → start = end` follow the prefix subtraction and precede the return, and every slice bound taken from a go/ast End() position is tested (rejected or clamped) before the slice; parseGo slices and advances with the extractor's own start/end and converts them with PositionAt(from+start / from+end). NOT decided: absence of panics and hangs on arbitrary input, that the recorded text equals the source at the recorded range for every construct (value-level), error positions.",
+		Explanation: "Totality and promptness of the parser over all byte strings are runtime facts and are R4 (termination of the top-level loop) every parser that has read one of the template keywords (templ / css / script) turns each later failed sub-parse into an error — it never declines with ok=false and a nil error, because the Go-code reader un-reads keyword lines containing an opening parenthesis and asks these parsers again; R5 every write into a strings.Builder whose String() becomes an Expression's text is text consumed from the input (result of Parse/Take), never a constant. R6 every `until` lookahead handed to the node-list parser (which rewinds after a match) is flat: it does not reach the node-list parser again, so no branch is parsed twice per nesting level. R7 the text handed to the whole-file entry points (ParseString, parse.NewInput) in parser/v2, the LSP proxy and generatecmd is the text that was read: no strings/bytes/regexp/unicode call that produces text lies on its way (a stripped BOM or converted line ending shifts every recorded position against the file); the un-read test of R4 may be a regular expression, whose required prefixes are then enumerated from the pattern. Decides the position-provenance clauses of the property, for all sites of package parser/v2 and goexpression: R1 every Expression/Range built by the parser goes through NewExpression/NewRange with positions that are parse.Position values obtained from the input being parsed (Position()/PositionAt(), or locals/parameters of that type); no Position, Range or Expression composite literal with position fields exists outside the three constructors, and the constructors copy index, line and column field by field; direct writes to Index/Line/Col exist only as a paired adjustment of Index and Col of the same position by the same constant; R2 every NameRange is NewRange(PositionAt(Index() − len(X.Name)), Position()) where X.Name is the field assigned by the name parser in the statement just before, for the same X; R3 (clamps) the bounds that come from go/parser positions are clamped before they are used to slice the source: in the extractor wrapper `end > len(content) → end = len(content)` and `start > end → start = end` follow the prefix subtraction and precede the return, and every slice bound taken from a go/ast End() position is tested (rejected or clamped) before the slice; parseGo slices and advances with the extractor's own start/end and converts them with PositionAt(from+start / from+end). NOT decided: absence of panics and hangs on arbitrary input, that the recorded text equals the source at the recorded range for every construct (value-level), error positions. R5 also: the text handed to NewExpression is the consumed input, untransformed (no trimming / case folding of a slice of the input); R8 a look-ahead that un-reads a line and hands over to other parsers tests the line as it was read.",
 		Assumptions: []string{"github.com/a-h/parse Input.Position/PositionAt derive line and column from the byte index through its newline table"},
 		Trusted:     []string{"go/types", "x/tools go/packages, go/cfg"},
 		Run:         runC06,
@@ -28,6 +28,7 @@ func runC06(c *Ctx) {
 	c.floor("C06.R7", 3)
 	committedPrefixParsers(c, "C06.R4")
 	expressionTextFromInput(c, "C06.R5")
+	lookAheadTestsTheLineAsRead(c, "C06.R8")
 	lookaheadParsersFlat(c, "C06.R6")
 	p := c.pkg("parser/v2")
 	info := p.TypesInfo
@@ -457,16 +458,62 @@ func checkNameRanges(c *Ctx, info *types.Info, body *ast.BlockStmt, where string
 	for _, list := range lists {
 		for i, st := range list {
 			as, ok := st.(*ast.AssignStmt)
+			if ok && len(as.Lhs) == len(as.Rhs) && len(as.Lhs) > 1 {
+				// x.Name, x.NameRange = pair.Text, pair.Range
+				for li, l := range as.Lhs {
+					if lse, isSel := l.(*ast.SelectorExpr); isSel && lse.Sel.Name == "NameRange" {
+						if rse, isSel := ast.Unparen(as.Rhs[li]).(*ast.SelectorExpr); isSel && rse.Sel.Name == "Range" {
+							if _, isLocal := ast.Unparen(rse.X).(*ast.Ident); isLocal {
+								*n++
+								c.ok("C06.R2", fmt.Sprintf("%s|name-range:%s#%d", where, types.ExprString(lse.X), *n), c.pos(as.Pos()), "copied from the (name, range) pair the name parser returned")
+							}
+						}
+					}
+				}
+			}
 			if !ok || len(as.Lhs) != 1 || len(as.Rhs) != 1 {
 				continue
 			}
 			lse, ok := as.Lhs[0].(*ast.SelectorExpr)
-			if !ok || lse.Sel.Name != "NameRange" {
+			if !ok || (lse.Sel.Name != "NameRange" && lse.Sel.Name != "Range") {
 				continue
+			}
+			// the text field the range belongs to: <owner>.Name — or, for a (text, range) pair built by a shared
+			// combinator, the field of the same owner that the statement just before filled from a Parse call
+			textField := "Name"
+			if lse.Sel.Name == "Range" {
+				textField = ""
+				if i > 0 {
+					var init ast.Stmt
+					switch pst := list[i-1].(type) {
+					case *ast.IfStmt:
+						init = pst.Init
+					case *ast.AssignStmt:
+						init = pst
+					}
+					if pas, ok := init.(*ast.AssignStmt); ok && len(pas.Lhs) >= 1 && len(pas.Rhs) == 1 {
+						if pse, ok := pas.Lhs[0].(*ast.SelectorExpr); ok && types.ExprString(pse.X) == types.ExprString(lse.X) {
+							if pc, ok := pas.Rhs[0].(*ast.CallExpr); ok && strings.HasSuffix(types.ExprString(pc.Fun), ".Parse") {
+								textField = pse.Sel.Name
+							}
+						}
+					}
+				}
+				if textField == "" {
+					continue
+				}
 			}
 			call, ok := as.Rhs[0].(*ast.CallExpr)
 			if !ok {
-				continue // plain copy of an existing range
+				// plain copy of an existing range; a copy out of a (text, range) pair that a parser returned counts as a
+				// site of its own (the pair's range is checked where it is built)
+				if rse, isSel := ast.Unparen(as.Rhs[0]).(*ast.SelectorExpr); isSel && rse.Sel.Name == "Range" && lse.Sel.Name == "NameRange" {
+					if _, isLocal := ast.Unparen(rse.X).(*ast.Ident); isLocal {
+						*n++
+						c.ok("C06.R2", fmt.Sprintf("%s|name-range:%s#%d", where, types.ExprString(lse.X), *n), c.pos(as.Pos()), "copied from the (name, range) pair the name parser returned")
+					}
+				}
+				continue
 			}
 			*n++
 			owner := types.ExprString(lse.X)
@@ -476,7 +523,7 @@ func checkNameRanges(c *Ctx, info *types.Info, body *ast.BlockStmt, where string
 			if fn != nil && fn.Name() == "NewRange" && len(call.Args) == 2 {
 				a0 := nodeText(c.fset, call.Args[0])
 				a1 := nodeText(c.fset, call.Args[1])
-				wantLen := "len(" + owner + ".Name)"
+				wantLen := "len(" + owner + "." + textField + ")"
 				// … or the start is the position taken in the statement just before the name parser ran
 				takenBefore := false
 				if id, isID := ast.Unparen(call.Args[0]).(*ast.Ident); isID && i >= 2 {
@@ -544,7 +591,7 @@ func checkNameRanges(c *Ctx, info *types.Info, body *ast.BlockStmt, where string
 				case *ast.AssignStmt:
 					init = pst
 				}
-				if pas, ok := init.(*ast.AssignStmt); ok && len(pas.Lhs) >= 1 && types.ExprString(pas.Lhs[0]) == owner+".Name" && len(pas.Rhs) == 1 {
+				if pas, ok := init.(*ast.AssignStmt); ok && len(pas.Lhs) >= 1 && types.ExprString(pas.Lhs[0]) == owner+"."+textField && len(pas.Rhs) == 1 {
 					if pc, ok := pas.Rhs[0].(*ast.CallExpr); ok && strings.HasSuffix(types.ExprString(pc.Fun), ".Parse") {
 						prevOK = true
 					}
@@ -797,7 +844,7 @@ func expressionTextFromInput(c *Ctx, rule string) {
 			}
 			return true
 		})
-		nexp := 0
+		nexp, ntext := 0, 0
 		ast.Inspect(sc.Body, func(x ast.Node) bool {
 			call, ok := x.(*ast.CallExpr)
 			if !ok || len(call.Args) == 0 {
@@ -805,6 +852,42 @@ func expressionTextFromInput(c *Ctx, rule string) {
 			}
 			if fn := calleeOf(info, call); fn == nil || fn.Name() != "NewExpression" || fn.Pkg() != pp.Types {
 				return true
+			}
+			// the text is what was consumed, as it stands: a trimmed / re-cased / replaced copy no longer starts at the
+			// recorded From and no longer has the recorded length
+			{
+				transformed := ""
+				argExpr := unfoldLocals(pp, sc, call.Args[0])
+				ast.Inspect(argExpr, func(y ast.Node) bool {
+					if c2, ok := y.(*ast.CallExpr); ok {
+						if fn := calleeOf(info, c2); fn != nil && fn.Pkg() != nil && fn.Pkg().Path() == "strings" {
+							switch fn.Name() {
+							case "TrimSpace", "Trim", "TrimLeft", "TrimRight", "TrimPrefix", "TrimSuffix", "TrimFunc", "TrimLeftFunc", "TrimRightFunc", "ToLower", "ToUpper", "Replace", "ReplaceAll", "Title", "Map":
+								transformed = "strings." + fn.Name()
+							}
+						}
+					}
+					return true
+				})
+				// (text accumulated piece by piece in a builder is judged by the builder rule below: what is trimmed there
+				// is the white space after the last piece, the start having been taken after the leading white space)
+				fromBuilder := false
+				ast.Inspect(argExpr, func(y ast.Node) bool {
+					if c2, ok := y.(*ast.CallExpr); ok {
+						if se, ok := c2.Fun.(*ast.SelectorExpr); ok && se.Sel.Name == "String" {
+							if t := info.TypeOf(se.X); t != nil && strings.HasSuffix(strings.TrimPrefix(t.String(), "*"), "strings.Builder") {
+								fromBuilder = true
+							}
+						}
+					}
+					return true
+				})
+				if fromBuilder {
+					transformed = ""
+				}
+				ntext++
+				c.check(transformed == "", rule, fmt.Sprintf("%s|NewExpression#%d|text-as-consumed", funcKey(pp, sc), ntext), c.pos(call.Pos()), "the expression text is the consumed input, untransformed",
+					fmt.Sprintf("%s passes the expression text through %s before storing it with positions that were taken for the untransformed text: the recorded range no longer starts at the first byte of the text (leading white space) or has its length, so every position derived from it (source map, diagnostics, formatting) is shifted", funcKey(pp, sc), transformed))
 			}
 			bad := ""
 			var walk func(e ast.Expr)
@@ -1203,4 +1286,101 @@ func allFuncDeclsOfPkgPath(c *Ctx, path string) []*ast.FuncDecl {
 		}
 	}
 	return nil
+}
+
+// lookAheadTestsTheLineAsRead: C06.R8 — a parser loop that reads a line ahead, decides from it that the line belongs
+// to someone else, un-reads it (pi.Seek(<index taken before>)) and leaves its loop hands over to parsers that look at
+// the input at that very position. If the decision was made on a transformed copy of the line (leading white space
+// trimmed, case folded), it can say "a template starts here" where none of those parsers matches: nothing is consumed,
+// the enclosing loop comes back to the same position and the parser never returns. So: the prefix tests of such a
+// hand-over condition are applied to the line as it was read.
+func lookAheadTestsTheLineAsRead(c *Ctx, rule string) {
+	pp := c.pkg("parser/v2")
+	info := pp.TypesInfo
+	n := 0
+	for _, sc := range fileScopes(pp) {
+		if sc.Body == nil {
+			continue
+		}
+		ast.Inspect(sc.Body, func(x ast.Node) bool {
+			is, ok := x.(*ast.IfStmt)
+			if !ok {
+				return true
+			}
+			// the body un-reads and leaves a loop
+			seeks, leaves := false, false
+			for _, st := range is.Body.List {
+				switch s := st.(type) {
+				case *ast.ExprStmt:
+					if call, ok := s.X.(*ast.CallExpr); ok {
+						if se, ok := call.Fun.(*ast.SelectorExpr); ok && se.Sel.Name == "Seek" && len(call.Args) == 1 {
+							if _, isID := ast.Unparen(call.Args[0]).(*ast.Ident); isID {
+								seeks = true
+							}
+						}
+					}
+				case *ast.BranchStmt:
+					if s.Tok == token.BREAK {
+						leaves = true
+					}
+				}
+			}
+			if !seeks || !leaves {
+				return true
+			}
+			// the prefix tests of the condition (boolean locals read through)
+			cond := unfoldLocals(pp, sc, is.Cond)
+			ntests, bad := 0, ""
+			ast.Inspect(cond, func(y ast.Node) bool {
+				call, ok := y.(*ast.CallExpr)
+				if !ok || len(call.Args) != 2 {
+					return true
+				}
+				fn := calleeOf(info, call)
+				if fn == nil || (fullName(fn) != "strings.HasPrefix" && fullName(fn) != "strings.Contains") {
+					return true
+				}
+				ntests++
+				// the tested text: a variable that a Parse call filled, not the result of a strings function
+				arg := ast.Unparen(call.Args[0])
+				if id, isID := arg.(*ast.Ident); isID {
+					arg = ast.Unparen(unfoldLocals(pp, sc, id))
+				}
+				if tc, isCall := arg.(*ast.CallExpr); isCall {
+					if tf := calleeOf(info, tc); tf != nil && tf.Pkg() != nil && tf.Pkg().Path() == "strings" {
+						bad = "strings." + tf.Name() + "(…)"
+					}
+				}
+				return true
+			})
+			// (a condition in another form — a pattern match on the line — has no text argument to judge here; the
+			// look-ahead is still counted)
+			ast.Inspect(cond, func(y ast.Node) bool {
+				if call, ok := y.(*ast.CallExpr); ok && len(call.Args) == 1 {
+					if fn := calleeOf(info, call); fn != nil && fullName(fn) == "regexp.(Regexp).MatchString" {
+						ntests++
+						arg := ast.Unparen(call.Args[0])
+						if id, isID := arg.(*ast.Ident); isID {
+							arg = ast.Unparen(unfoldLocals(pp, sc, id))
+						}
+						if tc, isCall := arg.(*ast.CallExpr); isCall {
+							if tf := calleeOf(info, tc); tf != nil && tf.Pkg() != nil && tf.Pkg().Path() == "strings" {
+								bad = "strings." + tf.Name() + "(…)"
+							}
+						}
+					}
+				}
+				return true
+			})
+			if ntests == 0 {
+				return true
+			}
+			n++
+			c.check(bad == "", rule, fmt.Sprintf("%s|look-ahead#%d|tests-line-as-read", funcKey(pp, sc), n), c.pos(is.Pos()), fmt.Sprintf("%d prefix test(s) on the line as it was read", ntests),
+				fmt.Sprintf("%s decides to un-read a line and hand over to other parsers on %s of the line, not on the line itself: where the two differ (an indented `script := …` in a Go block) no parser matches at the un-read position and the file parser loops forever", funcKey(pp, sc), bad))
+			return true
+		})
+	}
+	c.count("un_read_look_aheads", n)
+	c.floor(rule, 1)
 }
